@@ -94,6 +94,21 @@ func raceKey(blk string) string {
 	if snap(a) && trim(b) && !trim(a) || snap(b) && trim(a) && !trim(b) {
 		return "F24-snapshot-tail-copy-vs-trimlength-cache"
 	}
+	// F33: the per-item cache of --nth tokens (Item.transformed) is filled without synchronisation by
+	// whoever matches the item first - a matcher worker (scan) or the terminal (highlighting): one side
+	// builds / publishes the tokens, the other side is inside the same pattern evaluation
+	builds := func(s string) bool {
+		return strings.Contains(s, "(*Pattern).transformInput") || strings.Contains(s, "fzf/src.Transform()")
+	}
+	evals := func(s string) bool {
+		return strings.Contains(s, "(*Pattern).extendedMatch") || strings.Contains(s, "(*Pattern).transformInput")
+	}
+	other := func(s string) bool {
+		return strings.Contains(s, "(*ChunkList)") || strings.Contains(s, "(*ChunkCache)") || strings.Contains(s, "(*Merger)") || strings.Contains(s, "(*Reader)")
+	}
+	if (builds(a) || builds(b)) && evals(a) && evals(b) && !other(a) && !other(b) {
+		return "F33-nth-token-cache-unsynchronised"
+	}
 	return ""
 }
 
